@@ -111,6 +111,18 @@ class Canon(ast.NodeTransformer):
             return ast.copy_location(ast.If(test=v.test, body=[self.visit_Assign(a)], orelse=[self.visit_Assign(b)]), node)
         return node
 
+    # ``cond and act()`` / ``cond or act()`` as a statement  ->  ``if cond: act()`` / ``if not cond: act()``: the guard
+    # becomes a path condition like any other
+    def visit_Expr(self, node):
+        self.generic_visit(node)
+        v = node.value
+        if isinstance(v, ast.BoolOp) and len(v.values) >= 2:
+            last = ast.copy_location(ast.Expr(value=v.values[-1]), node)
+            head = v.values[0] if len(v.values) == 2 else ast.copy_location(ast.BoolOp(op=v.op, values=v.values[:-1]), v)
+            test = head if isinstance(v.op, ast.And) else ast.copy_location(ast.UnaryOp(op=ast.Not(), operand=head), head)
+            return ast.copy_location(ast.If(test=test, body=[self.visit_Expr(last)], orelse=[]), node)
+        return node
+
     def visit_Return(self, node):
         self.generic_visit(node)
         if isinstance(node.value, ast.IfExp):
